@@ -218,7 +218,10 @@ def runOp (op : String) (fields : List String) (impl : String) : Option Verdict 
       -- each call is the function value for its own (source, parameters): no history
       pure { model := (if ma == normCompile ia then ia else ma) ++ " ;; " ++ (if mb == normCompile ib then ib else mb) ++ " ;; PARAMS-OK",
              oracle := (if st != "PARAMS-OK" then ["c14-parameter-map-modified", "c06-let-escapes-its-program"] else []) ++
-                       (if mb != normCompile ib && ma == normCompile ia then ["c06-let-escapes-its-program", "c14-result-depends-on-history"] else []) }
+                       (if mb != normCompile ib && ma == normCompile ia then ["c06-let-escapes-its-program", "c14-result-depends-on-history"] else []) ++
+                       -- C13 / C05 on each call of the sequence: fails exactly on parse error or misuse, whatever was compiled before
+                       ((CompileOracle.clauses a params ia ++ CompileOracle.clauses b params ib).filter
+                          fun c => c.startsWith "c13-" || c.startsWith "c05-") }
     | _ => pure { model := ma ++ " ;; " ++ mb ++ " ;; PARAMS-OK", oracle := ["unreadable-result"] }
   | "COMPILE2", [ha, hb, ps] => do
     let a ← Bytes.ofHex ha
